@@ -35,6 +35,15 @@ Two further streams (added after the red team):
   fresh process must open the file and find, for every row, the field of its vector and the population_id
   of the last committed statement.
 
+* another process locks the file (red-team round 2): while the `at`-th individual is synchronised a fresh interpreter
+  (a viewer / backup / second writer) holds a read transaction (SHARED), BEGIN IMMEDIATE (RESERVED) or BEGIN EXCLUSIVE on
+  the file until the real SQLite has refused the writer r = 1..12 (thorough: 25) times in a row ('database is locked'
+  after the busy timeout, shortened to 20 ms by the connect proxy), then lets go; the writer is killed at every
+  objective call / boundary before, during and after that synchronisation (the refused attempts are boundaries too) and
+  by SIGKILL.  Model: a refused attempt performs no store statement, and a synchronisation that has RETURNED has written
+  its row (retry until success: C07's XRefused treatment) - a `SReturn` without its `SExec; SCommit` is not `legal`, and
+  the direct oracle finds the acknowledged individual missing.
+
 Nothing in /repo is changed: the crash points are injected by the proxy and by the scenario's objective.
 """
 import json
@@ -66,6 +75,10 @@ TRUSTED = [
     "lists and checked on every reported trace; the assignment state := EVALUATED is not observable from outside and is placed "
     "between calc_signed_costs and the store call as job.py 42-49 has it (its effect - the state in the row - is compared)",
     "the objective is a function of the vector (the scenario's is); signed costs are an oracle table observed at calc_signed_costs",
+    "a write attempt refused by SQLite because another process holds a lock ('database is locked') is no step of the model: the "
+    "synchronisation retries until the write goes through (datastore.py: sync_individual calls itself again on OperationalError), as "
+    "Model/Parallel.v XRefused says for C07; exercised with a real second process holding SHARED / RESERVED / EXCLUSIVE locks for 1..25 "
+    "busy timeouts (busy timeout shortened from 5 s to 20 ms harness-side, which only scales the waiting), the lock is eventually released",
 ]
 ASSUMPTIONS = [
     "crash = death of the writing process (os._exit / SIGKILL), not power loss or a torn write of the file system",
@@ -122,7 +135,8 @@ def server_main():
     import logging
 
     CTL = {"fd": None, "armed": False, "k": 0, "crash_at": None, "obj_calls": 0, "obj_crash": None, "conns": 0,
-           "lock": threading.Lock(), "jitter": 0.0, "journal_modes": set(), "fail_at": frozenset(), "payload": 0}
+           "lock": threading.Lock(), "jitter": 0.0, "journal_modes": set(), "fail_at": frozenset(), "payload": 0,
+           "busy": None, "ext": None, "sync_no": 0}
     UPSERT = "INSERT INTO individuals"
     import re
     POP = re.compile(r'"population_id": (-?\d+)')
@@ -163,6 +177,64 @@ def server_main():
                 emit({"e": "crash", "k": k, "at": tag})
                 os._exit(77)
 
+    # ---- ANOTHER PROCESS holding a lock on the file while one individual is synchronised (red-team round 2) ----------
+    LOCKER = (
+        "import os, sys, sqlite3, select\n"
+        "db, kind, hold, ctl_r, rdy_w = sys.argv[1], sys.argv[2], float(sys.argv[3]), int(sys.argv[4]), int(sys.argv[5])\n"
+        "try:\n"
+        "    con = sqlite3.connect(db, timeout=2.0, isolation_level=None)\n"
+        "    if kind == 'read':\n"
+        "        con.execute('BEGIN')\n"
+        "        con.execute('SELECT count(*) FROM individuals').fetchall()\n"
+        "    else:\n"
+        "        con.execute('BEGIN ' + kind.upper())\n"
+        "    os.write(rdy_w, b'1')\n"
+        "    select.select([ctl_r], [], [], hold)\n"
+        "    con.execute('COMMIT')\n"
+        "    con.close()\n"
+        "finally:\n"
+        "    os._exit(0)\n")
+
+    def start_locker(db):
+        """starts ANOTHER PROCESS (a fresh interpreter, not a fork of this possibly multi-threaded one) that takes a lock on the
+        database file (kind 'read': BEGIN + SELECT = SHARED lock, as a viewer or a backup does; 'immediate': BEGIN IMMEDIATE =
+        RESERVED, another writer; 'exclusive': BEGIN EXCLUSIVE) and keeps it until it is told to let go, the writer dies (EOF on
+        the control pipe) or `hold` seconds have passed.  It inherits the event pipe: the server reads EOF - and starts the
+        reader - only after the locker has gone too."""
+        ext = CTL["ext"]
+        ctl_r, ctl_w = os.pipe()
+        rdy_r, rdy_w = os.pipe()
+        keep = [ctl_r, rdy_w] + ([CTL["fd"]] if CTL["fd"] is not None else [])
+        proc = subprocess.Popen([sys.executable, "-S", "-c", LOCKER, db, ext["kind"], str(ext.get("hold", 6.0)), str(ctl_r), str(rdy_w)],
+                                pass_fds=keep, stdin=subprocess.DEVNULL, stdout=subprocess.DEVNULL, stderr=subprocess.DEVNULL)
+        os.close(ctl_r)
+        os.close(rdy_w)
+        got = os.read(rdy_r, 1)              # the lock is held from now on (b"" if the locker could not take it)
+        ext.update(active=bool(got), ctl_w=ctl_w, done_r=rdy_r, proc=proc)
+        emit({"e": "locked", "kind": ext["kind"], "held": bool(got)})
+
+    def release_locker():
+        ext = CTL["ext"]
+        if ext and ext.get("active"):
+            ext["active"] = False
+            os.close(ext["ctl_w"])
+            os.read(ext["done_r"], 1)        # EOF: the locker has committed and exited
+            try:
+                ext["proc"].wait(5)
+            except Exception:
+                pass
+            emit({"e": "unlocked"})
+
+    def note_refused(where, iid):
+        """the real SQLite has refused a write attempt ('database is locked' after the busy timeout)"""
+        ext = CTL["ext"]
+        with CTL["lock"]:
+            emit({"e": "refused", "at": where, "i": iid})
+            if ext and ext.get("active"):
+                ext["refused"] = ext.get("refused", 0) + 1
+                if ext["refused"] >= ext["r"]:
+                    release_locker()         # the lock is eventually released: the next attempt goes through
+
     class Cursor:
         def __init__(self, real, conn):
             self._real, self._conn = real, conn
@@ -170,12 +242,17 @@ def server_main():
         def execute(self, sql, params=()):
             if CTL["armed"] and sql.startswith(UPSERT):
                 boundary("before execute")
-                if not self._conn._checked:
-                    self._conn._checked = True
-                    mode = self._conn._real.execute("PRAGMA journal_mode").fetchone()[0]
-                    emit({"e": "journal", "c": self._conn._cid, "mode": mode})
-                r = self._real.execute(sql, params)
+                try:
+                    if not self._conn._checked:
+                        mode = self._conn._real.execute("PRAGMA journal_mode").fetchone()[0]      # (needs a SHARED lock itself)
+                        self._conn._checked = True
+                        emit({"e": "journal", "c": self._conn._cid, "mode": mode})
+                    r = self._real.execute(sql, params)
+                except sqlite3.OperationalError:
+                    note_refused("execute", params[0])
+                    raise
                 self._conn._dirty = True
+                self._conn._ids.append(params[0])
                 pm = POP.search(params[1][:4000]) if isinstance(params[1], str) else None
                 emit({"e": "exec", "c": self._conn._cid, "i": params[0], "p": int(pm.group(1)) if pm else None})
                 boundary("after execute")
@@ -190,6 +267,7 @@ def server_main():
             self._real = real
             self._dirty = False
             self._checked = False
+            self._ids = []
             with CTL["lock"]:
                 CTL["conns"] += 1
                 self._cid = CTL["conns"]
@@ -200,7 +278,11 @@ def server_main():
         def commit(self):
             if CTL["armed"] and self._dirty:
                 emit({"e": "commit_begin", "c": self._cid})
-                r = self._real.commit()
+                try:
+                    r = self._real.commit()
+                except sqlite3.OperationalError:
+                    note_refused("commit", self._ids[-1] if self._ids else None)
+                    raise
                 self._dirty = False
                 emit({"e": "commit", "c": self._cid})
                 boundary("after commit")
@@ -213,7 +295,8 @@ def server_main():
     real_connect = sqlite3.connect
 
     def connect(*a, **kw):
-        kw.setdefault("timeout", 1.0)       # artap's default busy timeout is 5 s; nothing legitimately waits that long here
+        # artap's default busy timeout is 5 s; nothing legitimately waits that long here (external-lock scenarios: shorter still)
+        kw.setdefault("timeout", CTL["busy"] or 1.0)
         return Conn(real_connect(*a, **kw))
 
     # artap prints (e.g. "database is locked") on stdout: keep the protocol on its own descriptor
@@ -315,6 +398,13 @@ def server_main():
 
         # which object is handed to the store: one created by this process, or one rebuilt from a row at start-up
         def sync_individual(individual):
+            ext = CTL["ext"]
+            if ext is not None:
+                with CTL["lock"]:
+                    n = CTL["sync_no"]
+                    CTL["sync_no"] += 1
+                if n == ext["at"]:                   # (not under CTL["lock"]: another worker may need it to finish its commit)
+                    start_locker(req["db"])          # another process locks the file while THIS individual is synchronised
             emit({"e": "plan", "objs": [[individual.id, isinstance(individual.state, str)]]})
             r = real_ind(individual)
             emit({"e": "ret", "i": individual.id})
@@ -340,6 +430,8 @@ def server_main():
         CTL["jitter"] = sc.get("jitter", 0.0)
         CTL["fail_at"] = frozenset(sc.get("fail", ()))
         CTL["payload"] = sc.get("payload", 0)
+        CTL["ext"] = dict(sc["lock"]) if sc.get("lock") else None
+        CTL["busy"] = sc["lock"].get("busy", 0.02) if sc.get("lock") else None
         CTL["armed"] = True                 # the store has been created: crash points start here
         emit({"e": "armed"})
         alg.run()
@@ -417,7 +509,22 @@ def server_main():
         chunks = []
         seen = 0
         t_armed = None
+        import select
+        dead_since, status = None, None
         while True:
+            if not select.select([r], [], [], 0.5)[0]:
+                # nothing reported for a while: if the writer itself is dead, someone else (a locker) still holds the event pipe;
+                # it lets go within its `hold` time - never wait longer than that
+                if dead_since is None:
+                    with guard:
+                        if not gone["v"]:
+                            wp, st = os.waitpid(pid, os.WNOHANG)
+                            if wp == pid:
+                                gone["v"], status, dead_since = True, st, time.time()
+                elif time.time() - dead_since > 10.0:
+                    chunks.append(b'{"e": "exception", "what": "the event pipe was still held 10 s after the death of the writer"}\n')
+                    break
+                continue
             b = os.read(r, 65536)
             if not b:
                 break
@@ -433,8 +540,9 @@ def server_main():
         armed.set()
         os.close(r)
         with guard:
-            gone["v"] = True
-        _, status = os.waitpid(pid, 0)
+            if not gone["v"]:
+                gone["v"] = True
+                _, status = os.waitpid(pid, 0)
         lines = b"".join(chunks).decode().split("\n")
         evs = []
         for ln in lines:
@@ -520,7 +628,9 @@ def run(ctx):
                                               "sigkill_commit": 0, "none": 0}, "exact": 0, "interval": 0, "rows_read": 0, "returned_ids": 0,
             "rows_in_flight_observed": 0, "hot_journal_left": 0, "journal_modes": {}, "writer_died_by": {}, "failed_attempts": 0,
             "crash_with_failed_attempt_before": 0, "crash_inside_retry_or_between_failure_and_success": 0, "big_row_kills": 0,
-            "hot_journal_bytes_max": 0}
+            "hot_journal_bytes_max": 0,
+            "external_lock": {"runs": 0, "lock_taken": 0, "refused_attempts": 0, "longest_refusal_streak": 0, "by_kind": {},
+                              "crashes_after_the_refused_sync_returned": 0}}
     cases, expected, meta = [], [], []
 
     def fail(what, sc, crash, clause, **kw):
@@ -681,7 +791,8 @@ def run(ctx):
                 return
 
     def count_points(evs):
-        nb = sum(2 if e["e"] == "exec" else 1 if e["e"] == "commit" else 0 for e in evs)
+        # (a write attempt that SQLite refuses at its execute has passed "before execute" and nothing else)
+        nb = sum(2 if e["e"] == "exec" else 1 if e["e"] == "commit" or (e["e"] == "refused" and e["at"] == "execute") else 0 for e in evs)
         no = sum(1 for e in evs if e["e"] == "start")
         return nb, no
 
@@ -732,7 +843,17 @@ def run(ctx):
                  ({"alg": "sweep", "n": 2, "seed": 41, "procs": 1, "payload": 130000, "resync": True, "watchdog": 60.0}, "directed", (0, 0)),
                  ({"alg": "sweep", "n": 2, "seed": 42, "procs": 1, "payload": 400000, "resync": True, "watchdog": 60.0}, "directed", (0, 0)),
                  ({"alg": "sweep1", "n": 1, "seed": 43, "procs": 1, "payload": 1000000, "resync": True, "watchdog": 60.0}, "directed", (0, 0)),
-                 ({"alg": "sweep", "n": 30, "seed": 44, "procs": 1, "payload": 20000, "resync": True, "watchdog": 60.0}, "directed", (0, 0))]
+                 ({"alg": "sweep", "n": 30, "seed": 44, "procs": 1, "payload": 20000, "resync": True, "watchdog": 60.0}, "directed", (0, 0)),
+                 # ANOTHER PROCESS holds a lock on the file while the `at`-th individual is synchronised, for as long as it takes to
+                 # refuse the writer r times in a row (busy timeout shortened to 20 ms by the connect proxy: only scales the waiting);
+                 # then it lets go, the run continues, and the writer is killed at every later (and earlier) point: a synchronisation
+                 # that has RETURNED has written its row (retry until success, as C07's XRefused model says)
+                 ({"alg": "sweep", "n": 4, "seed": 61, "procs": 1, "lock": {"kind": "read", "at": 1, "r": 7}}, "all", few),
+                 ({"alg": "sweep1", "n": 3, "seed": 62, "procs": 1, "lock": {"kind": "immediate", "at": 0, "r": 6}}, "all", few),
+                 ({"alg": "sweep", "n": 3, "seed": 63, "procs": 1, "lock": {"kind": "exclusive", "at": 1, "r": 12}}, ctx.pick(20, "all"), few),
+                 ({"alg": "nsga2", "n": 3, "g": 2, "seed": 64, "procs": 1, "lock": {"kind": "read", "at": 4, "r": 5}}, ctx.pick(16, "all"), few),
+                 ({"alg": "sweep", "n": 3, "seed": 65, "procs": 1, "lock": {"kind": "read", "at": 1, "r": 1}}, ctx.pick(10, "all"), (1, 1)),
+                 ({"alg": "sweep", "n": 6, "seed": 66, "procs": 2, "jitter": 0.002, "lock": {"kind": "read", "at": 2, "r": 7}}, ctx.pick(10, 40), few)]
     if ctx.thorough:
         scenarios += [({"alg": "sweep", "n": 30, "seed": 21, "procs": 1}, "all"),
                       ({"alg": "sweep", "n": 30, "seed": 22, "procs": 4, "jitter": 0.002}, 120),
@@ -750,6 +871,10 @@ def run(ctx):
                       ({"alg": "epsmoea", "n": 4, "g": 2, "seed": 91, "procs": 1, "fail": [2, 3, 7, 11]}, 80, few),
                       ({"alg": "nsga2", "n": 4, "g": 2, "seed": 92, "procs": 2, "jitter": 0.002, "fail": [1, 2, 5, 9]}, 40, few),
                       ({"alg": "sweep", "n": 3, "seed": 45, "procs": 1, "payload": 400000, "resync": True, "watchdog": 90.0}, "directed", (0, 0)),
+                      ({"alg": "sweep", "n": 4, "seed": 67, "procs": 1, "lock": {"kind": "exclusive", "at": 0, "r": 25}}, "all", few),
+                      ({"alg": "sweep", "n": 4, "seed": 68, "procs": 1, "lock": {"kind": "immediate", "at": 3, "r": 11}}, "all", few),
+                      ({"alg": "epsmoea", "n": 3, "g": 1, "seed": 69, "procs": 1, "lock": {"kind": "read", "at": 2, "r": 8}}, "all", few),
+                      ({"alg": "nsga2", "n": 4, "g": 2, "seed": 70, "procs": 2, "jitter": 0.002, "lock": {"kind": "exclusive", "at": 3, "r": 6}}, 40, few),
                       ({"alg": "sweep", "n": 48, "seed": 46, "procs": 1, "payload": 16000, "resync": True, "watchdog": 90.0}, "directed", (0, 0))]
     scenarios = [t if len(t) == 3 else (t[0], t[1], (ctx.pick(4, 30), ctx.pick(5, 30))) for t in scenarios]
     try:
@@ -810,13 +935,24 @@ def run(ctx):
                 hist["crash_inside_retry_or_between_failure_and_success"] += bool(open_failed)
             if res.get("journal_bytes_at_death"):
                 hist["hot_journal_bytes_max"] = max(hist["hot_journal_bytes_max"], res["journal_bytes_at_death"])
+            if sc.get("lock"):
+                xl = hist["external_lock"]
+                nref = sum(1 for ev in evs if ev.get("e") == "refused")
+                xl["runs"] += 1
+                xl["lock_taken"] += any(ev.get("e") == "locked" and ev.get("held") for ev in evs)
+                xl["refused_attempts"] += nref
+                xl["longest_refusal_streak"] = max(xl["longest_refusal_streak"], nref)
+                xl["by_kind"][sc["lock"]["kind"]] = xl["by_kind"].get(sc["lock"]["kind"], 0) + 1
+                victim = next((ev["i"] for ev in evs if ev.get("e") == "refused"), None)
+                xl["crashes_after_the_refused_sync_returned"] += crash["kind"] != "none" and any(
+                    ev.get("e") == "ret" and ev["i"] == victim for ev in evs)
             c, e, mt = to_case(sc, crash, res, exact)
             cases.append(c)
             expected.append(e)
             meta.append(mt)
             if not exact and mt["rows"] is not None and len(mt["in_flight_connections"]) > 0:
                 hist["rows_in_flight_observed"] += 1
-            ctx.count((sc["alg"], sc["n"], sc.get("g"), sc["procs"], "pre" in sc, tuple(sc.get("fail", ())), sc.get("payload", 0),
+            ctx.count((sc["alg"], sc["n"], sc.get("g"), sc["procs"], "pre" in sc, tuple(sc.get("fail", ())), sc.get("payload", 0), json.dumps(sc.get("lock")),
                        crash["kind"], crash.get("k"), len(evs), tuple(mt["rows"] or ())),
                       nontrivial=crash["kind"] != "none")
             if sc["alg"] == "sweep1" and crash["kind"] == "boundary" and crash["k"] in (1, 2):
@@ -831,7 +967,9 @@ def run(ctx):
     ctx.rule = ("one run of the writer per crash point: every objective call and every statement / commit boundary of the serial scenarios "
                 "(sampled for the larger ones), sampled boundaries and random-instant SIGKILLs of the parallel ones; the same with scripted transient failures of the "
                 "objective (1-4 in a row; crash points inside the retries); directed kills between execute and commit (and SIGKILL inside the "
-                "commit) of rows / transactions larger than the page cache; a case is non-trivial "
+                "commit) of rows / transactions larger than the page cache; runs in which ANOTHER PROCESS holds a read / write / exclusive "
+                "lock on the file during the synchronisation of a chosen individual until the writer has been refused 1..12 times in a row, "
+                "killed at every point before / inside / after that synchronisation; a case is non-trivial "
                 "when the writer was killed; distinct = distinct (scenario, crash point, number of reported events, row ids found)")
 
 
